@@ -26,6 +26,12 @@ class VoidTranscriptPrinter:
     def dump(self, transcript_model_constructor, transcript_model_storage=None):
         pass
 
+    def flush(self):
+        pass
+
+    def close(self):
+        pass
+
 
 class GFFPrinter:
     exon_id_dict = {}
@@ -58,8 +64,13 @@ class GFFPrinter:
         self.check_canonical = check_canonical
 
     def __del__(self):
-        self.out_gff.close()
-        if self.output_r2t:
+        self.close()
+
+    def close(self):
+        # safe to call more than once
+        if not self.out_gff.closed:
+            self.out_gff.close()
+        if self.output_r2t and not self.out_r2t.closed:
             self.out_r2t.close()
 
     def dump(self, gene_info, transcript_model_storage):
